@@ -860,6 +860,36 @@ theorem hidden_cycle_order_independent :
     pdResolve exHidden [2, 1, 0] 1 [] [['K']] = some (.dfn [['q','q'], ['K']]) ∧
     (PyImp.run exHidden [0, 1, 2]).err = true := by decide +kernel
 
+/-- `p/__init__.py` (empty); `p/x.py`: `class PX`; `p/sub.py`: `from .x import PX`; `q/__init__.py`: `from p import *` ;
+`__all__ = ['sub']`; `q/x.py`: `class PX` -/
+def exStarMod : Project := [
+  ⟨[['p']], true, []⟩,
+  ⟨[['p'], ['x']], false, [.classDef ['P','X'] [] []]⟩,
+  ⟨[['p'], ['s','u','b']], false, [.importFrom 1 [['x']] ['P','X'] none]⟩,
+  ⟨[['q']], true, [.importStar 0 [['p']], .allAssign [['s','u','b']]]⟩,
+  ⟨[['q'], ['x']], false, [.classDef ['P','X'] [] []]⟩ ]
+
+/-- HISTORICAL (before fix ec6815d) — a submodule re-exported through a star import was moved UNPROCESSED: with `p` and
+`p.x` processed, the old `_handleReExport` step (`handleReExportOld`) for `sub` in `q` moves module 2 to `q.sub` while its
+state is still `unprocessed`, so it was analysed afterwards as `q.sub` and `from .x import PX` was resolved against `q`
+(replayed on real pydoctor by the harness: `order-dependent:star-reexport-unprocessed-module`).  The step as it is now
+processes the module first. -/
+theorem star_module_reexport_counterexample :
+    (handleReExportOld (run exStarMod [0, 1]) 3 [['s','u','b']] ['s','u','b'] ['s','u','b'] 0).2 = true ∧
+    getPs (handleReExportOld (run exStarMod [0, 1]) 3 [['s','u','b']] ['s','u','b'] ['s','u','b'] 0).1 2 = .unprocessed ∧
+    path (handleReExportOld (run exStarMod [0, 1]) 3 [['s','u','b']] ['s','u','b'] ['s','u','b'] 0).1.reg 2
+      = some [['q'], ['s','u','b']] ∧
+    (handleReExport (processModule exStarMod 5) (run exStarMod [0, 1]) 3 [['s','u','b']] ['s','u','b'] ['s','u','b'] 0).2 = true ∧
+    getPs (handleReExport (processModule exStarMod 5) (run exStarMod [0, 1]) 3 [['s','u','b']] ['s','u','b'] ['s','u','b'] 0).1 2
+      = .processed := by decide +kernel
+
+/-- the same project now: `PX` in the moved module is `p.x.PX` whether `p.sub` or `q` is processed first -/
+theorem star_module_order_independent :
+    (run exStarMod [0, 1, 3, 4, 2]).bad = false ∧ (run exStarMod [0, 1, 2, 3, 4]).bad = false ∧
+    path (run exStarMod [0, 1, 3, 4, 2]).reg 2 = some [['q'], ['s','u','b']] ∧
+    pdResolve exStarMod [0, 1, 3, 4, 2] 2 [] [['P','X']] = some (.dfn [['p'], ['x'], ['P','X']]) ∧
+    pdResolve exStarMod [0, 1, 2, 3, 4] 2 [] [['P','X']] = some (.dfn [['p'], ['x'], ['P','X']]) := by decide +kernel
+
 /-- the definer's body: a class with a method and a nested class, and a function -/
 def rxDefBody : List Stmt := [.classDef ['K'] [] [.funcDef ['g'], .classDef ['N'] [] [.assign ['v'] 1]], .funcDef ['f']]
 
